@@ -1,3 +1,4 @@
+import Firebolt.Properties.TransBase
 import Firebolt.Model.Supervisor
 import Firebolt.Generated.Skeleton
 import Firebolt.Expected.Skeleton
@@ -126,6 +127,39 @@ theorem source_kcSetup : GeneratedSrc.kcSetup = ExpectedSrc.kcSetup := by rfl
 
 /-! ### influence closure: the pinned functions, and every function of the repository that writes a struct field or package
 variable they read, are unchanged (digests regenerated from /repo on every run; a difference names the functions) -/
+/-! ### The code itself, translated (`Generated/Trans.lean`, rewritten from /repo on every run by extractor/translate.go)
+
+The `translated_*` theorems are about MiniGo terms the translator produced from the current Go source: for every
+environment the translated fragment does what the hand-written model function says.  They are semantic obligations —
+a rewrite that preserves the behaviour keeps them provable, a changed comparison, bound or argument does not. -/
+section Translated
+open Firebolt.MiniGo Firebolt.TransBase
+
+/-- prepareSource, translated: a fresh instance from the registry becomes the executor's source, is initialised with the
+configured id and context, and set up with the configured parameters and the executor's one source channel — the same
+arguments on every call; a failing Setup ends the process before anything is started -/
+theorem translated_prepareSource (σ : Env) :
+    obs Trans.exPrepareSource σ =
+      ⟨[("node.GetRegistry().InstantiateSource", [σ "e.config.Source.Name"]),
+        ("e.source.Init", [σ "e.config.Source.ID", σ "e.fbContext"]),
+        ("e.source.Setup", [σ "e.config.Source.Params", σ "e.sourceCh"])] ++
+        (if σ "e.source.Setup#0" ≠ 0 then [("os.Exit", [1])] else []), none, false⟩ ∧
+    (run Trans.exPrepareSource σ).env "e.source" = σ "node.GetRegistry().InstantiateSource#0" := by
+  by_cases h : σ "e.source.Setup#0" = 0 <;> minigo_simp [Trans.exPrepareSource, h]
+
+/-- one round of the supervisor's loop, translated: the first round starts the source prepared at construction, every
+later round prepares a new one first; a nil return from Start ends the loop (`ret = some [1]`: break) without a pause;
+an error is followed by `time.Sleep(10 * time.Second)` and another round -/
+theorem translated_superviseBody (σ : Env) :
+    obs Trans.exSuperviseBody σ =
+      ⟨(if σ "initialRun" ≠ 0 then [] else [("e.prepareSource", [])]) ++ [("e.source.Start", [])] ++
+        (if σ "e.source.Start#0" = 0 then [] else [("time.Sleep", [wrap64 (10 * σ "time.Second")])]),
+       (if σ "e.source.Start#0" = 0 then some [1] else none), false⟩ ∧
+    (run Trans.exSuperviseBody σ).env "initialRun" = 0 := by
+  by_cases h1 : σ "initialRun" = 0 <;> by_cases h2 : σ "e.source.Start#0" = 0 <;>
+  minigo_simp [Trans.exSuperviseBody, h1, h2]
+end Translated
+
 theorem closure_unchanged : GeneratedClo.C18 = ExpectedClo.C18 := by rfl
 
 end Firebolt.C18
